@@ -43,6 +43,16 @@ def _plain(rnd) -> dict:
     return h
 
 
+OTHER_AS = ["tuple", "empty", "size", "shape", "record", "str", "list", "nested"]
+
+
+def _plain_value(rnd) -> dict:
+    """The value at such a position: an opaque object, or (a third of the time) something iterable / tuple-valued."""
+    if rnd.random() < 0.35:
+        return {"k": "other", "as": rnd.choice(OTHER_AS)}
+    return V_OTHER
+
+
 class Ctx:
     def __init__(self, rnd: random.Random, provider_names: dict[str, int] | None = None) -> None:
         self.rnd = rnd
@@ -188,7 +198,7 @@ def _gen_case(rnd: random.Random, libs=("np",), with_provider: float = 0.25, wit
         r = rnd.random()
         if r < plain:
             params.append({"name": name, "hint": _plain(rnd)})
-            args[name] = V_OTHER
+            args[name] = _plain_value(rnd)
             continue
         if r < plain + tuples:
             elts, vals = [], []
@@ -196,7 +206,7 @@ def _gen_case(rnd: random.Random, libs=("np",), with_provider: float = 0.25, wit
                 q = rnd.random()
                 if q < 0.25:
                     elts.append(_plain(rnd))
-                    vals.append(V_OTHER)
+                    vals.append(_plain_value(rnd))
                 else:
                     h, v = gen_tensor_hint(c, list(libs))
                     if q < 0.45:
@@ -224,7 +234,7 @@ def _gen_case(rnd: random.Random, libs=("np",), with_provider: float = 0.25, wit
             for _ in range(rnd.choice([1, 2, 3])):
                 if rnd.random() < 0.25:
                     elts.append(_plain(rnd))
-                    vals.append(V_OTHER)
+                    vals.append(_plain_value(rnd))
                 else:
                     h, v = gen_tensor_hint(c, list(libs))
                     elts.append(h)
